@@ -21,6 +21,10 @@ COMPILERS = {"rel": "g++", "asan": "clang++", "tsan": "clang++"}
 # property table. engine "rc": a rapidcheck executable built in the `rel` flavour.
 # quick/thorough: (multiplier on each sub-check's base case count, number of parallel seeds)
 PROPS = {
+    "C08": dict(engine="rc", exe="c08", quick=(1, 6), thorough=(20, 16),
+                assumptions=["a plume's 'rotation angles' are turned with the world (they describe the ellipse orientation in map view)",
+                             "velocities are not compared (raw cartesian components, not co-rotated)",
+                             "mismatches where the original world's own answer changes within 2 cm / 2e-7 degrees are counted as boundary-ambiguous and skipped"]),
     "C12": dict(engine="rc", exe="c12", quick=(1, 6), thorough=(20, 16),
                 fuzz=dict(targets=["fz_construct", "fz_struct"], want=lambda sig: "non-finite" not in sig),
                 assumptions=["'violates the published schema' is judged against the schema emitted by the tree under test, walked by engine/schema_walk.h",
